@@ -18,7 +18,10 @@ func genC17(r *Rng, k int, tier string) *RunSpec {
 	}
 	st := newStd(o)
 	a := &st.W.Servers[0]
-	a.Filter = Pick(r, []string{"all", "all", "none", "first", "odd", "dropfirst-inplace"})
+	a.Filter = Pick(r, []string{"all", "all", "none", "first", "odd", "dropfirst-inplace", "skip-anon", "skip-anon"})
+	// an owned collection with an entry that has no identity (legal; it just cannot be forwarded to)
+	anonCol := "https://" + hostA + "/c/anon"
+	a.Docs = append(a.Docs, DocSpec{anonCol, mustJSON(J{"@context": asCtx, "type": "Collection", "id": anonCol, "items": []interface{}{st.Dave, J{"type": "Person", "name": "nobody in particular"}}})})
 	ownedNonColl := st.Note2
 	a.Docs = append(a.Docs, DocSpec{st.Alice.Followers,
 		mustJSON(J{"@context": asCtx, "type": "Collection", "id": st.Alice.Followers, "items": []interface{}{st.Bob.ID, st.Dave, J{"type": "Person", "id": st.Erin, "inbox": st.Erin + "/inbox"}}})})
@@ -26,6 +29,9 @@ func genC17(r *Rng, k int, tier string) *RunSpec {
 	st.W.Remote = append(st.W.Remote, DocSpec{foreignColl, mustJSON(J{"@context": asCtx, "type": "Collection", "id": foreignColl, "items": []string{st.Erin}})})
 	// addressing: mix of owned collections, foreign collections, owned non-collections, actors
 	pool := []string{st.Alice.Followers, st.Col1, st.OCol1, foreignColl, ownedNonColl, st.Alice.ID, st.Dave, st.Carol.ID}
+	if a.Filter == "skip-anon" || r.Intn(6) == 0 {
+		pool = append(pool, anonCol, anonCol)
+	}
 	addr := func() []interface{} {
 		var out []interface{}
 		for i, n := 0, r.Intn(3); i < n; i++ {
@@ -371,8 +377,23 @@ func oracleC17(c *DriveCtx, res *Result) {
 		}
 		out, _ := normalise(filt[0].Arg).(map[string]interface{})
 		var members []string
+		anon := false
 		for _, cid := range aslist(out["out"]) {
 			members = append(members, collIDs(before[fmt.Sprint(cid)], "")...)
+			for _, e := range collEntries(before[fmt.Sprint(cid)]) {
+				if idOf(e) == "" {
+					anon = true
+				}
+			}
+		}
+		if anon {
+			s.probe("c17-selected-collection-with-anonymous-member") // cannot be forwarded to as asked: an error is the answer
+			if len(fwd) > 0 {
+				if pm, err := parseJ([]byte(fwd[0].Payload)); err != nil || !sameDoc(pm, g.body) {
+					s.violate("C17", "forward-payload-changed", site, "forwarded payload differs from the received activity")
+				}
+			}
+			continue
 		}
 		if len(fwd) == 0 {
 			s.violate("C17", "not-forwarded", site, fmt.Sprintf("%s meets the three conditions; filter returned %v; nothing was handed to the transport", actID, out["out"]))
